@@ -87,6 +87,10 @@ def expected(l):
     elif op in ("diff", "since_unix"):
         r = ta - tb
         lim = DMAX
+    elif op == "elapsed":
+        c = (int(l["c"][0]), int(l["c"][1]))
+        tc = c[0] * NPS + c[1]
+        return ("elapsed", "none" if ta > tc else ("some" if ta <= tb else "either")), abs(ta - tb) < 2 * NPS
     else:
         return "cmp", a[0] == b[0]
     if r < 0 or r // NPS > lim:
@@ -109,21 +113,25 @@ def corrupt(rng, l):
             c["out"] = ["none"]
     elif o[0] == "none":
         c["out"] = ["some", "0", 0]
+
     elif o[0] == "cmp":
         o[1] = not o[1]
     return c
 
 
-def run_arith(chk, bindir, tier):
+def run_arith(chk, bindir, tier, build="debug"):
     nrand = 400 if tier == "quick" else 12000
-    args = [os.path.join(bindir, "timearith"), "arith", str(nrand), str(chk.seed)] + (["full"] if tier == "thorough" else [])
+    if build == "release":
+        nrand = 1500
+    args = [os.path.join(bindir, "timearith"), "arith", str(nrand), str(chk.seed + (7 if build == "release" else 0))] + (
+        ["full"] if tier == "thorough" and build == "debug" else [])
     p = core.run_cmd(args, timeout=1800)
     lines = [json.loads(x) for x in p.stdout.splitlines() if x.strip()]
     if not lines:
         raise core.ToolError("timearith arith produced no output: " + p.stderr[-500:])
     # judge: the same call is often recorded for both types / both spellings - judge all
     jl = [K.to_judge_line(l) for l in lines]
-    bad = judge_lines(chk, jl, "arith", par=3 if tier == "quick" else 6)
+    bad = judge_lines(chk, jl, "arith_" + build, par=3 if tier == "quick" else 6)
     chk.traces += len(lines)
     chk.evaluations += len(lines)
     nontriv = set()
@@ -149,25 +157,29 @@ def run_arith(chk, bindir, tier):
         else:
             kind = "wrong_value"
         chk.violate({"op": l["op"], "kind": kind},
-                    "%s %s(a=%s, b=%s) returned %s; TimeArith.tla (exact total nanoseconds) gives %s" % (
-                        l["ty"], l["op"] + ("/" + l["via"] if "via" in l else ""), l["a"], l["b"], o, e),
-                    {"mode": "arith", "line": l})
+                    "%s %s(a=%s, b=%s) returned %s; TimeArith.tla (exact total nanoseconds) gives %s%s" % (
+                        l["ty"], l["op"] + ("/" + l["via"] if "via" in l else ""), l["a"], l["b"], o, e,
+                        " [release build]" if build == "release" else ""),
+                    {"mode": "arith", "line": l, "build": build})
     # anti-vacuity: falsified copies of accepted lines must all be rejected
     rng = random.Random(chk.seed)
     badset = set(bad)
-    pool = [l for i, l in enumerate(lines) if i not in badset and expected(l)[0] not in ("nopanic",) and l["out"][0] != "panic"]
+    pool = [l for i, l in enumerate(lines) if i not in badset and expected(l)[0] not in ("nopanic",) and l["out"][0] != "panic"
+            and l["op"] != "elapsed"]      # elapsed() is only bracketed, a small falsification stays inside the bracket
     fals = [corrupt(rng, rng.choice(pool)) for _ in range(60)] if pool else []
     if fals:
         fb = judge_lines(chk, [K.to_judge_line(l) for l in fals], "falsified", par=1)
         if len(fb) != len(fals):
             raise core.ToolError("judge self-test: only %d of %d falsified records were rejected" % (len(fb), len(fals)))
-    chk.extra["arith_calls_judged"] = len(lines)
-    chk.extra["arith_calls_in_exactness_domain"] = indom
-    chk.extra["arith_calls_negative_seconds_panic_freedom_only"] = len(lines) - indom
-    chk.extra["falsified_records_rejected"] = len(fals)
-    for i in (0, len(lines) // 2, len(lines) - 7):
-        chk.sample(lines[i])
-    return len(nontriv)
+    sfx = "" if build == "debug" else "_release_build"
+    chk.extra["arith_calls_judged" + sfx] = len(lines)
+    chk.extra["arith_calls_in_exactness_domain" + sfx] = indom
+    chk.extra["arith_calls_negative_seconds_panic_freedom_only" + sfx] = len(lines) - indom
+    chk.extra["falsified_records_rejected" + sfx] = len(fals)
+    if build == "debug":
+        for i in (0, len(lines) // 2, len(lines) - 7):
+            chk.sample(lines[i])
+    return len(nontriv) if build == "debug" else 0
 
 
 def run_clock(chk, bindir, tier):
@@ -191,6 +203,8 @@ def run_clock(chk, bindir, tier):
         e = evs[rep["consumed"]]
         if e["ev"] == "read":
             kind = "read_decreased"
+        elif e["ev"] == "elapsed":
+            kind = "elapsed_outside_bracket"
         elif e.get("res") != "ok":
             kind = "sleep_error"
         else:
@@ -252,6 +266,10 @@ def run(tier):
     chk.extra["clock_model_states"] = r3.distinct
     # 3
     nt = run_arith(chk, bindir, tier)
+    if tier == "thorough":
+        # the same API compiled without overflow checks (unchecked arithmetic wraps instead of panicking)
+        rel = core.cargo_build(bins=["timearith"], release=True)
+        run_arith(chk, rel, tier, build="release")
     # 4
     nt += run_clock(chk, bindir, tier)
     chk.nontrivial = nt
@@ -267,7 +285,7 @@ def run(tier):
         "the driver builds Instants from TimeSpecs by transmute (one-field struct; verified at start-up against as_ref())",
         "sleep: only the lower bound is asserted; readings of different threads are compared only when ordered by a lock",
         "the 64-bit domain is sampled (boundary-biased), the scaled domain is enumerated completely",
-        "debug build: unchecked arithmetic overflow panics (release wraps silently; the scaled model covers both as 'panic')",
+        "quick: debug build (unchecked overflow panics); thorough additionally a release build (overflow wraps) on a reduced grid",
     ]
     return chk.finish()
 
@@ -282,6 +300,8 @@ def replay(path):
         a = l["a"]
         b = ["0", 0] if dur_op else l["b"]
         d = l["b"] if dur_op else ["0", 0]
+        if rp.get("build") == "release":
+            bindir = core.cargo_build(bins=["timearith"], release=True)
         p = core.run_cmd([os.path.join(bindir, "timearith"), "one", a[0], str(a[1]), b[0], str(b[1]), d[0], str(d[1])])
         lines = [json.loads(x) for x in p.stdout.splitlines() if x.strip()]
         lines = [x for x in lines if x["op"] == l["op"] and x["ty"] == l["ty"] and x.get("via") == l.get("via")]
@@ -293,3 +313,24 @@ def replay(path):
     print("clock traces depend on the scheduler and cannot be replayed deterministically; recorded rejection:")
     print(json.dumps(rp, indent=1))
     return 0
+
+
+def selftest():
+    """anti-vacuity: every stored negative patch (seeded/C19-*/patch.diff) applied to a scratch
+    copy of /repo must make the quick check print a VIOLATION (bin/mutant-test exits 0).  The
+    falsified-record test of the judge runs inside every normal run."""
+    import glob
+    import subprocess
+    ok = True
+    for d in sorted(glob.glob(os.path.join(core.VERIF, "seeded", "C19-*"))):
+        patch = os.path.join(d, "patch.diff")
+        p = subprocess.run([os.path.join(core.VERIF, "bin", "mutant-test"), patch, "C19"],
+                           stdout=subprocess.PIPE, stderr=subprocess.STDOUT, text=True)
+        det = p.returncode == 0
+        ok = ok and det
+        print("%s: %s" % (os.path.basename(d), "detected (VIOLATION)" if det else "NOT DETECTED"))
+        for l in p.stdout.splitlines():
+            if l.startswith("[verif] violation:"):
+                print("    " + l[:240])
+                break
+    return 0 if ok else 1
